@@ -341,6 +341,45 @@ theorem driver_explores_steps {n : Nat} {s s' : State} :
       s' ∈ succs n s) :=
   ⟨succs_sound, succs_complete⟩
 
+/-! ### the property, assembled -/
+
+/-- C15 for the whole pipe, PARTIAL.  In every reachable state of the two-direction model, for each direction:
+no panic; the bytes returned by reads are exactly the concatenation, in lock order, of the consumed prefixes of
+the writes (once, in order, writes not interleaved); every returned write reports its log entry's count; at most
+one writer is inside the lock; and every thread inside a call can move, or waits in a select with `done` and
+deadline alternatives, or waits for the mutex held by a thread that itself is subject to this statement.
+Half-close, close-read and deadline behaviour are `half_close`, `close_read_fails_writes`, `deadline_unblocks`,
+`timeout_only_if_expired`, `no_deadlock_after_close`, each valid for both directions by `directions_independent`.
+MISSING for the full property (hence `_partial`): (1) the Go scheduler, timers and memory model are not
+formalised — the theorem is about all interleavings of the MODEL's atomic steps, real schedules are sampled by
+corr_c15; (2) "unblocks" / "no deadlock" are proved as enabledness in every reachable state, not as termination
+under a fairness assumption; (3) atomicity granularity as listed in meta/C15.json. -/
+theorem pipe_faithful_duplex_partial {p : Pipe} (r : PReachable p) :
+    ∀ s, (s = p.ab ∨ s = p.ba) →
+      s.panicked = false ∧
+      s.rret = (s.wlog.map (fun w => w.1.take w.2)).flatten ∧
+      (∀ i n e c, s.thr i = .wRet n e (some c) → ∃ buf, s.wlog[c]? = some (buf, n) ∧ n ≤ buf.length) ∧
+      (∀ i j, (s.thr i).holds = true → (s.thr j).holds = true → i = j) ∧
+      (∀ i, match s.thr i with
+        | .idle | .rRet .. | .wRet .. | .uRet .. => True
+        | .rSel k _ _ => Alt.done ∈ k.sel ∧ Alt.deadline ∈ k.sel
+        | .wSel .. => Alt.done ∈ writeSelect ∧ Alt.deadline ∈ writeSelect
+        | .wLock _ => CanMove s i ∨ ∃ j, j ≠ i ∧ s.mu = some j ∧ (s.thr j).holds = true
+        | _ => CanMove s i) := by
+  intro s hs
+  have rs : Reachable s := by
+    rcases hs with h | h <;> subst h
+    · exact (directions_independent r).1
+    · exact (directions_independent r).2
+  refine ⟨no_panic rs, fidelity rs, ?_, atomic_writes rs, ?_⟩
+  · intro i n e c h; exact write_count rs i n e (some c) h
+  · intro i
+    have h := no_stuck_state rs i
+    cases hp : s.thr i <;> simp only [hp] at h ⊢ <;> first
+      | trivial
+      | exact h
+      | exact h.1
+
 /-! ### the hypotheses are satisfiable (concrete runs of the model, `SSV/Proofs/PipeExamples.lean`) -/
 
 /-- a run that transfers data: Write([1,2,3]) ‖ Read(cap 2): the read got [1,2], the write has consumed 2 so far
@@ -391,3 +430,4 @@ end SSV.C15
 #print axioms SSV.C15.refines_spec
 #print axioms SSV.C15.driver_explores_steps
 #print axioms SSV.C15.timeout_only_if_expired
+#print axioms SSV.C15.pipe_faithful_duplex_partial
